@@ -244,3 +244,18 @@ theorem point_guardLog {σ : Type} (E : Evaluator σ) (st : IState σ) (ev : Opt
   | cons c cs ih => simp [List.filter_cons, ih]
 
 end Sismic
+
+namespace Sismic
+
+@[simp] theorem isCond_onExit (n : Name) : (Effect.onExit n).isCond = false := rfl
+@[simp] theorem isCond_onEntry (n : Name) : (Effect.onEntry n).isCond = false := rfl
+@[simp] theorem isCond_action (t : Nat) (e : Option Event) : (Effect.action t e).isCond = false := rfl
+@[simp] theorem isCond_meta (e : Event) : (Effect.metaEv e).isCond = false := rfl
+@[simp] theorem isCond_cond (k : CondKind) (o : ObjId) (i : Nat) (e : Option Event) (r : Option Bool) :
+    (Effect.cond k o i e r).isCond = true := rfl
+@[simp] theorem isCond_guard (t : Nat) (e : Option Event) (r : Option Bool) : (Effect.guard t e r).isCond = false := rfl
+
+theorem contractLog_true (kind : CondKind) (obj : Obj) (ev : Option Event) : contractLog true kind obj ev = [] := by
+  simp [contractLog]
+
+end Sismic
